@@ -7,6 +7,7 @@ from . import gen, drv, ref_ber, pipeline, valcheck, runner
 from .common import h, KNOWN
 from .model import val_to_json, val_from_json
 
+HANG_IS_VERDICT = True     # "terminates" is part of this property
 PID = "C07"
 RULE = ("structures: valid values, constraint-violating values (injected through BER, which does not validate) and "
         "structures broken by a walker (mandatory pointer member nulled, CHOICE selector 0 / out of range, empty INTEGER_t "
